@@ -557,7 +557,7 @@ package netty
 // The background sender. One activation owns the sender token (running == 1) from its start
 // until it stores idle; it drains the queue in FIFO batches.
 //@ spec func bufInv(c *channel) bool = c.writeBuffers != nil && c.recycleBuffers != nil && cap(c.writeBuffers) == cap(c.recycleBuffers) && cap(c.writeBuffers) >= 1 && arrof(c.writeBuffers) != arrof(c.recycleBuffers) && cap(c.writeBuffers) == cap(c.writeQueue)/2 + 1
-//@ property C01 C02 C06 C07 C10 C18
+//@ property C01 C02 C05 C06 C07 C10 C18
 //@ func (*channel).writeOnce
 //@   requires asyncInv(c) && bufInv(c)
 //@   modifies all
